@@ -77,6 +77,15 @@ Theorem C02_reader_reads_conventions : forall c U poly st f x fuel,
   fdv c U fuel (df_nillable f) (df_ty f) (senc c U st false (df_ty f) x) = Ok (vnorm x).
 Proof. exact reader_reads_conventions. Qed.
 
+(** a primitive customized with empty_is_none=True ([DPrimE]): the empty text and the empty
+    byte string are read as null, every other node (0, 0.0, false, [] among them) exactly as
+    without the option; conformant values of such slots (anything but the empty text / the
+    empty byte string) are covered by the structural theorems above *)
+Theorem C02_empty_is_none_only_empty_text : forall c U fuel nillable k j,
+  fdv c U fuel nillable (DPrimE k) j
+  = fdv c U fuel nillable (DPrim k) (match j with JStr [] | JBytes [] => JNull | _ => j end).
+Proof. exact empty_is_none_only_empty_text. Qed.
+
 (** ** calls *)
 
 (** a request built by the documented conventions enters the user function with the
@@ -174,6 +183,8 @@ Theorem C02_source_tables :
   /\ null_member_is_none = true /\ body_lookup_both_key_forms = true /\ single_none_is_null = true
   /\ int_slot_float_is_int = true /\ ret_bool_by_identity = true /\ hier_counts_array_items = false
   /\ cycle_guard_per_branch = true
+  /\ ein_empty_str = true /\ ein_empty_bytes = true
+  /\ bytes_encoded_as_one = true /\ bytes_no_chunks_ok = true
   /\ handlers = expected_handlers
   /\ GMsgpack_key_utf8 = true /\ GJson_key_utf8 = false /\ GYaml_key_utf8 = false
   /\ GMsgpack_writes_bytes = true /\ GJson_base64 = true /\ GYaml_base64 = true.
@@ -222,6 +233,18 @@ Example C02_ex_call :
      = SCall ex_args_flat
   /\ serve_request ex_mp ex_U 20 [ex_sig] (sreq ex_mp ex_U spyne_style ex_sig ex_args_flat)
      = SCall ex_args_flat.
+Proof. vm_compute. repeat split. Qed.
+
+(* Integer(empty_is_none=True): 0 is 0, '' is None; Boolean: false is false; a member of such a type is conformant *)
+Example C02_ex_empty_is_none :
+  fdv ex_json [] 3 true (DPrimE (KInt (Fin 1024))) (JInt 0) = Ok (DLeaf (LInt 0))
+  /\ fdv ex_json [] 3 true (DPrimE KBool) (JBool false) = Ok (DLeaf (LBool false))
+  /\ fdv ex_json [] 3 true (DPrimE KDouble) (JFlt 0) = Ok (DLeaf (LInt 0))
+  /\ fdv ex_mp [] 3 true (DPrimE (KInt (Fin 1024))) (JBytes []) = Ok DNone
+  /\ fdv ex_json [] 3 true (DPrimE KText) (JStr []) = Ok DNone
+  /\ fdv ex_json [] 3 true (DPrim KText) (JStr []) = Ok (DLeaf (LText []))
+  /\ conf ex_json [] false false (DPrimE (KInt PosInf)) (DLeaf (LInt 0)) = true
+  /\ conf ex_json [] false false (DPrimE KText) (DLeaf (LText [])) = false.
 Proof. vm_compute. repeat split. Qed.
 
 (* MessagePackRpc: [0, 7, 'f', [{..A..}, 7]] -> f(A(i=2**64, s='hi'), 7) -> [1, 0, nil, {b'fResult': {..}}] *)
